@@ -232,9 +232,9 @@ func (fa *FnAnalysis) classifyAllocs() {
 			}
 			visit(a, true)
 			if !info.opaque {
-				if len(whole) == 1 {
+				if len(whole) == 1 && storeDominatesLoads(a) {
 					info.single = whole[0]
-				} else if len(whole) > 1 {
+				} else if len(whole) >= 1 {
 					info.multi = true
 				} else {
 					info.opaque = true
@@ -243,6 +243,56 @@ func (fa *FnAnalysis) classifyAllocs() {
 			fa.allocs[a] = info
 		}
 	}
+}
+
+// storeDominatesLoads: the only whole-value store into the cell dominates every
+// load of it (directly or through field addresses); otherwise a load may see
+// the zero value (named results assigned on some paths only).
+func storeDominatesLoads(a *ssa.Alloc) bool {
+	var st *ssa.Store
+	for _, r := range *a.Referrers() {
+		if x, ok := r.(*ssa.Store); ok && x.Addr == ssa.Value(a) {
+			st = x
+		}
+	}
+	if st == nil {
+		return false
+	}
+	idx := func(in ssa.Instruction) int {
+		for i, x := range in.Block().Instrs {
+			if x == in {
+				return i
+			}
+		}
+		return -1
+	}
+	dom := func(u ssa.Instruction) bool {
+		if u.Block() == st.Block() {
+			return idx(st) < idx(u)
+		}
+		return st.Block().Dominates(u.Block())
+	}
+	var visit func(v ssa.Value) bool
+	visit = func(v ssa.Value) bool {
+		refs := v.Referrers()
+		if refs == nil {
+			return false
+		}
+		for _, r := range *refs {
+			switch x := r.(type) {
+			case *ssa.UnOp:
+				if !dom(x) {
+					return false
+				}
+			case *ssa.FieldAddr:
+				if !visit(x) {
+					return false
+				}
+			}
+		}
+		return true
+	}
+	return visit(a)
 }
 
 func typeStr(t types.Type) string {
@@ -838,6 +888,94 @@ func (fa *FnAnalysis) edgeTransfer(st *State, p, b *ssa.BasicBlock, predIdx int)
 			}
 		}
 	}
+	// (d) conserved sum: two counters moving in opposite directions by the same constant keep
+	// their (exact, unwrapped) sum:  i (+) j == i0 (+) j0.  Requires that every back edge steps
+	// both by opposite constants and that the steps taken on this edge do not wrap.
+	if back {
+		var pr *bndProver
+		intPhi := func(ph *ssa.Phi) bool {
+			bt, ok := ph.Type().Underlying().(*types.Basic)
+			return ok && bt.Kind() == types.Int
+		}
+		stepsOf := func(ph *ssa.Phi) (ssa.Value, int64, bool) {
+			var init ssa.Value
+			var step int64
+			have := false
+			for i, p2 := range b.Preds {
+				ev := ph.Edges[i]
+				if !b.Dominates(p2) {
+					if init != nil {
+						return nil, 0, false
+					}
+					init = ev
+					continue
+				}
+				bo, ok := ev.(*ssa.BinOp)
+				if !ok || bo.X != ssa.Value(ph) || (bo.Op != token.ADD && bo.Op != token.SUB) {
+					return nil, 0, false
+				}
+				k, ok := constIntOf(bo.Y)
+				if !ok {
+					return nil, 0, false
+				}
+				if bo.Op == token.SUB {
+					k = -k
+				}
+				if have && k != step {
+					return nil, 0, false
+				}
+				step, have = k, true
+			}
+			return init, step, init != nil && have
+		}
+		for x := 0; x < len(incs); x++ {
+			for y := x + 1; y < len(incs); y++ {
+				pi, pj := incs[x].phi, incs[y].phi
+				if !intPhi(pi) || !intPhi(pj) {
+					continue
+				}
+				i0, si, ok1 := stepsOf(pi)
+				j0, sj, ok2 := stepsOf(pj)
+				if !ok1 || !ok2 || si == 0 || si+sj != 0 {
+					continue
+				}
+				if pr == nil {
+					pr = newProverE(fa.e, fa, ns)
+				}
+				// the steps taken on this edge are exact
+				big1 := int64(1) << 62
+				lim := fa.e.tt.mk(Term{K: "C", S: fmt.Sprint(big1), Const: constant.MakeInt64(big1)})
+				nlim := fa.e.tt.mk(Term{K: "C", S: fmt.Sprint(-big1), Const: constant.MakeInt64(-big1)})
+				ti, tj := fa.term(ns, pi), fa.term(ns, pj)
+				if !(pr.lt(ti, lim) && pr.lt(nlim, ti) && pr.lt(tj, lim) && pr.lt(nlim, tj)) {
+					continue
+				}
+				t0i, t0j := fa.term(ns, i0), fa.term(ns, j0)
+				inv := true
+				for _, t := range []*Term{t0i, t0j} {
+					for _, ep := range t.eps {
+						if fa.epochInLoop(ep, fa.loopOf[b]) {
+							inv = false
+						}
+					}
+					lv, _ := fa.loopValues(b)
+					for _, mv := range t.vals {
+						if lv[mv] {
+							inv = false
+						}
+					}
+				}
+				if !inv {
+					continue
+				}
+				vi := fa.e.tt.mk(Term{K: "V", V: pi})
+				vj := fa.e.tt.mk(Term{K: "V", V: pj})
+				lhs := fa.e.tt.mk(Term{K: "B", S: "(+)", A: vi, B: vj})
+				rhs := fa.e.tt.mk(Term{K: "B", S: "(+)", A: t0i, B: t0j})
+				carry = append(carry, carried{pi, Fact{aTR, fa.e.tt.mk(Term{K: "B", S: "==", A: lhs, B: rhs}), true}})
+			}
+		}
+	}
 	// (c) counting: a slice phi that starts empty and grows by at most one element per iteration
 	// never holds more elements than the iterations made: len(s) <= i - i0 for a counter phi i
 	// starting at the constant i0.  Checked inductively at every back edge with the linear prover
@@ -970,6 +1108,32 @@ func (fa *FnAnalysis) epochInLoop(ep int, blocks map[*ssa.BasicBlock]bool) bool 
 		}
 	}
 	return eb != nil && blocks[eb]
+}
+
+var zeroConsts = map[string]*ssa.Const{}
+
+// zeroConstOf: the zero value of a scalar / nillable type as an SSA constant (nil for aggregates).
+func zeroConstOf(t types.Type) *ssa.Const {
+	key := t.String()
+	if c, ok := zeroConsts[key]; ok {
+		return c
+	}
+	var c *ssa.Const
+	switch u := t.Underlying().(type) {
+	case *types.Basic:
+		switch {
+		case u.Info()&types.IsBoolean != 0:
+			c = ssa.NewConst(constant.MakeBool(false), t)
+		case u.Info()&types.IsInteger != 0:
+			c = ssa.NewConst(constant.MakeInt64(0), t)
+		case u.Info()&types.IsString != 0:
+			c = ssa.NewConst(constant.MakeString(""), t)
+		}
+	case *types.Pointer, *types.Slice, *types.Map, *types.Interface, *types.Signature, *types.Chan:
+		c = ssa.NewConst(nil, t)
+	}
+	zeroConsts[key] = c
+	return c
 }
 
 // emptySliceValue: a nil slice constant, make(T, 0) or arr[:0].
@@ -1136,6 +1300,12 @@ func (fa *FnAnalysis) transfer(st *State, in ssa.Instruction) {
 					if v := st.mem[a]; v != nil {
 						st.terms[x] = fa.term(st, v)
 						st.bind[x] = v
+					} else if _, has := st.mem[a]; !has && zeroConstOf(derefType(a.Type())) != nil {
+						// never stored on this path since the function was entered: the zero value
+						// (an absent key means "no store"; a merged or havoced cell is present with a nil value)
+						z := zeroConstOf(derefType(a.Type()))
+						st.terms[x] = fa.term(st, z)
+						st.bind[x] = z
 					} else {
 						delete(st.terms, x)
 						delete(st.bind, x)
